@@ -258,7 +258,7 @@ def check_roundtrip(ck, lib, c, gm, s, steps):
   if not gx.get_data_roundtrips_contacts(md) and not FINDINGS:
     ck.discard('B:finding-contact-in-margin'); return      # candidate finding F19
   if md.nefc and not FINDINGS:
-    Jd = md.efc_J.reshape(md.nefc, -1) if not mujoco.mj_isSparse(mm) else dense(
+    Jd = md.efc_J.reshape(-1, mm.nv)[:md.nefc] if not mujoco.mj_isSparse(mm) else dense(
         mujoco, md.efc_J, md.efc_J_rownnz, md.efc_J_rowadr, md.efc_J_colind, md.nefc, mm.nv)
     if not (Jd != 0).any(axis=1).all():
       # candidate finding F22: get_data keeps rows with a non-zero Jacobian only (efc_active = (efc_J != 0).any(axis=1)):
@@ -321,7 +321,7 @@ def check_roundtrip(ck, lib, c, gm, s, steps):
   # efc rows as a multiset; contact <-> row association through efc_address
   if md.nefc:
     def efc_rows(d):
-      J = d.efc_J.reshape(d.nefc, -1) if not mujoco.mj_isSparse(mm) else dense(
+      J = d.efc_J.reshape(-1, nv)[:d.nefc] if not mujoco.mj_isSparse(mm) else dense(
           mujoco, d.efc_J, d.efc_J_rownnz, d.efc_J_rowadr, d.efc_J_colind, d.nefc, nv)
       return [J] + [getattr(d, f) for f in EFC_FIELDS[1:]]
     ra, rb = efc_rows(md), efc_rows(back)
